@@ -2789,13 +2789,20 @@ func parseTimestampValue(raw string) (time.Time, error) {
 	if raw == "" {
 		return time.Time{}, fmt.Errorf("must not be empty")
 	}
-	if t, err := time.Parse(time.RFC3339, raw); err == nil {
-		return t, nil
+	t, err := time.Parse(time.RFC3339, raw)
+	if err != nil {
+		t, err = time.Parse(time.RFC3339Nano, raw)
 	}
-	if t, err := time.Parse(time.RFC3339Nano, raw); err == nil {
-		return t, nil
+	if err != nil {
+		return time.Time{}, fmt.Errorf("must be RFC3339 timestamp")
 	}
-	return time.Time{}, fmt.Errorf("must be RFC3339 timestamp")
+	// The zero time.Time means "not set" to everything that consumes the
+	// compiled value (a window that starts then would never be valid, one that
+	// ends then would never end), so that one instant cannot be written.
+	if t.IsZero() {
+		return time.Time{}, fmt.Errorf("must be later than 0001-01-01T00:00:00Z")
+	}
+	return t, nil
 }
 
 func normalizeHostMatch(raw string) (string, error) {
